@@ -565,11 +565,62 @@ def _along(t, dim, f, out_len=None):
     return V, I
 
 
-def sort(t, dim=-1, descending=False, stable=False):
-    def f(xs):
-        p = _sorted_perm(xs, descending)
+class _LazyIdx(Tensor):
+    """index tensor of sort/topk: the permutation is only decided (by forking comparisons) when it is read"""
+
+    def __init__(self, thunk, shape):
+        self._thunk = thunk
+        self._real = None
+        self.shape = Size(shape)
+        self._strides = _core._contig_strides(self.shape)
+        self._offset = 0
+        self.kind = "int"
+        self.dtype = int64
+        self.device = _core.CPU
+
+    @property
+    def _storage(self):
+        if self._real is None:
+            self._real = self._thunk()
+        return self._real._storage
+
+
+def _network_sort(xs, descending):
+    """values of xs in sorted order as if-then-else terms (bubble network, no forking)"""
+    xs = list(xs)
+    n = len(xs)
+    for i in range(n):
+        for j in range(n - 1 - i):
+            a, b = xs[j], xs[j + 1]
+            c = (a >= b) if descending else (a <= b)
+            xs[j], xs[j + 1] = _symx.ite(c, a, b), _symx.ite(c, b, a)
+    return xs
+
+
+def _symbolic_reals(xs):
+    return builtins_all(isinstance(x, _R) for x in xs) and builtins_any(not x.conc for x in xs)
+
+
+builtins_all, builtins_any = _bi.all, _bi.any
+
+
+def _sort_impl(t, dim, descending, k=None):
+    def f_fork(xs):
+        p = _sorted_perm(xs, descending)[:k]
         return [xs[i] for i in p], p
-    V, I = _along(t, dim, f)
+    fl = t._flat()
+    if t.kind == "real" and _symbolic_reals(fl):
+        def f_net(xs):
+            v = _network_sort(xs, descending)[:k]
+            return v, [0] * len(v)
+        V, _ = _along(t, dim, f_net, out_len=k)
+        I = _LazyIdx(lambda: _along(t, dim, f_fork, out_len=k)[1], V.shape)
+        return V, I
+    return _along(t, dim, f_fork, out_len=k)
+
+
+def sort(t, dim=-1, descending=False, stable=False):
+    V, I = _sort_impl(t, dim, descending)
     return _NT("sort", V, I)
 
 
@@ -582,10 +633,7 @@ def topk(t, k, dim=-1, largest=True, sorted=True):
     n = t.shape[d] if t.dim() else 1
     if not 0 <= k <= n:
         raise RuntimeError("selected index k out of range")
-    def f(xs):
-        p = _sorted_perm(xs, largest)[:k]
-        return [xs[i] for i in p], p
-    V, I = _along(t, dim, f, out_len=k)
+    V, I = _sort_impl(t, dim, largest, k)
     return _NT("topk", V, I)
 
 
@@ -658,9 +706,10 @@ class GramOnly(Tensor):
     properties for ALL matrices with that Gramian (any n >= rank) and at the same time *is* the obligation
     'the weights only look at the Gramian'."""
 
-    def __init__(self, G, n, dtype=None):
-        m = len(G)
-        self._G = [[_lift(x) for x in r] for r in G]
+    def __init__(self, G, n, dtype=None, dist=None):
+        m = len(G) if G is not None else len(dist)
+        self._G = [[_lift(x) for x in r] for r in G] if G is not None else None
+        self._dist = dist  # optional: pairwise row distances given directly (distance-only domain)
         self.shape = Size((m, n))
         self._strides = (n, 1)
         self._offset = 0
@@ -671,6 +720,8 @@ class GramOnly(Tensor):
 
     def gram(self):
         m = self.shape[0]
+        if self._G is None:
+            raise GramOnlyRead("Gramian of a distance-only matrix")
         return Tensor._make([self._G[i][j] for i in range(m) for j in range(m)], (m, m), self.dtype)
 
     def _indices(self):
@@ -738,6 +789,8 @@ class GramOnly(Tensor):
 
     def _cdist(self):
         m = self.shape[0]
+        if self._dist is not None:
+            return Tensor._make([_lift(self._dist[i][j]) for i in range(m) for j in range(m)], (m, m), self.dtype)
         out = []
         for i in range(m):
             for j in range(m):
